@@ -127,7 +127,7 @@ def do_chunk(chunk, exe=None, cfg=None):
         # reference: the documented size; for more than 64 random bytes (where 192 need not suffice) a large buffer
         refsz = 192 if nr <= 64 else 4096
         lines = [rt.gensalt_line("rn", prefix, count, rb, nr, sz) for sz in [refsz] + SIZES]
-        rows = rt.run_resilient(w, ["preerrno 2"], lines, max_deaths=8)
+        rows = rt.run_resilient(w, ["preerrno %d" % rt.stale_errno(count % 89 + (nr if nr > 0 else 3))], lines, max_deaths=8)
         judge_column(acc, col, rows, lines)
         if cfg:
             acc.count("cfg/" + cfg, len(lines) - 1)
@@ -181,7 +181,7 @@ def do_large(args):
         lines.append(rt.gensalt_line("rn", gen.TAG[m] if m else None, c, rb, nr, 192))
         lines.append(rt.gensalt_line("rn", gen.TAG[m] if m else None, c, rb, nr, size))
         meta.append((m or "NULL", c, nr, size))
-    rows = rt.run_resilient(w, ["preerrno 2"], lines)
+    rows = rt.run_resilient(w, ["preerrno %d" % rt.stale_errno(seed)], lines)
     for k, (name, c, nr, size) in enumerate(meta):
         a, b = rows[2 * k], rows[2 * k + 1]
         acc.count("evaluations")
